@@ -10,6 +10,7 @@ from vlib.logixbench import LogixScenario
 LEVEL = "exploration"
 SHARDS = {"quick": 8, "thorough": 16}
 TIMEOUT = {"quick": 900, "thorough": 3000}
+MIN_EVALUATIONS = {"quick": 5000, "thorough": 5000}  # fewer oracle evaluations than this means the workload collapsed: inconclusive
 RULE = ("size sweep against a reference target that enforces the connection size it granted: for connection sizes {4000, 500 after a refused "
         "Large Forward Open} x {read, write} x {single request, multi-request call with a small companion} x {symbolic, symbol-instance "
         "addressing} x tag-name lengths {1,2,15,16,39,40} x program scope: SINT arrays of EVERY length L in [S-w, S+w] (w = 24 quick / 60 "
